@@ -29,14 +29,15 @@ EXTENDS Integers, Sequences, FiniteSets, TLC, Json
 
 CONSTANTS Seeds,            \* initial (partial) scenarios
           ScenariosOf(_),   \* one-step families: seed -> set of complete scenarios
-          MaxSlots,         \* incremental builder: at most that many rule slots are filled
+          MaxSlots,         \* incremental builder: at most that many rule files are filled
           MaxFlags          \* incremental builder: at most that many flags
 
 VARIABLES scn,  \* the scenario (complete when pc = "done")
-          pc,   \* "pick" | "git" | "slots" | "rule" | "flags" | "opts" | "done"
-          todo  \* incremental builder: slots still to be filled
+          pc,   \* "pick" | "git" | "rule" | "flags" | "glob" | "types" | "depth" | "root" | "fin" | "done"
+          todo, \* incremental builder: number of rules / flags still to be added
+          mask  \* incremental builder: which of -g, -t/-T, --max-depth, root naming leave their default
 
-vars == <<scn, pc, todo>>
+vars == <<scn, pc, todo, mask>>
 
 \* ---------------------------------------------------------------- vocabulary
 Entries == {"f", "h", "d", "g"}
@@ -254,46 +255,58 @@ RulesFor(sl) == {[src |-> sl[1], lvl |-> sl[2], ent |-> e, pol |-> p] :
                    e \in {x \in Entries : Relevant(sl, x)}, p \in {"ignore", "white"}}
                 \ {[src |-> sl[1], lvl |-> sl[2], ent |-> "d", pol |-> "white"]}
 SlotLess(a, b) == Rank(a[1]) < Rank(b[1]) \/ (a[1] = b[1] /\ a[2] < b[2])
-MinSlot(S) == CHOOSE a \in S : \A b \in S : a = b \/ SlotLess(a, b)
 
 Init == /\ scn \in Seeds
         /\ pc = IF scn.fam = "free" THEN "git" ELSE "pick"
-        /\ todo = {}
+        /\ todo = 0
+        /\ mask = {}
 
 \* one-step families (exhaustive tiers): a successor step so that TLC's workers share the work
 Pick == /\ pc = "pick"
         /\ scn' \in ScenariosOf(scn)
         /\ pc' = "done"
-        /\ UNCHANGED todo
+        /\ UNCHANGED <<todo, mask>>
 
-\* incremental builder (simulation): few successors per step, arbitrary subsets overall
+\* incremental builder (simulation): few successors per step, arbitrary subsets overall.
+\* `todo` counts the rules / flags still to be added.
 BuildGit == /\ pc = "git"
             /\ \E g \in SUBSET (0..2) : scn' = [scn EXCEPT !.git = g]
-            /\ pc' = "slots"
-            /\ UNCHANGED todo
-BuildSlots == /\ pc = "slots"
-              /\ \E k \in 0..MaxSlots :
-                   \E S \in {T \in SUBSET Slots(scn.git) : Cardinality(T) = k} : todo' = S
-              /\ pc' = "rule"
-              /\ UNCHANGED scn
+            /\ \E k \in 0..MaxSlots : todo' = k
+            /\ mask' \in SUBSET {"glob", "types", "depth", "root"}
+            /\ pc' = "rule"
+FreeSlots(s) == {sl \in Slots(s.git) : \A r \in s.rules : <<r.src, r.lvl>> # sl}
 BuildRule == /\ pc = "rule"
-             /\ IF todo = {} THEN pc' = "flags" /\ UNCHANGED <<scn, todo>>
-                ELSE LET sl == MinSlot(todo) IN
-                     /\ \E r \in RulesFor(sl) : scn' = [scn EXCEPT !.rules = @ \cup {r}]
-                     /\ todo' = todo \ {sl}
-                     /\ pc' = "rule"
+             /\ UNCHANGED mask
+             /\ IF todo = 0 \/ FreeSlots(scn) = {}
+                  THEN /\ pc' = "flags"
+                       /\ \E k \in 0..MaxFlags : todo' = k
+                       /\ UNCHANGED scn
+                  ELSE /\ \E sl \in FreeSlots(scn) : \E r \in RulesFor(sl) : scn' = [scn EXCEPT !.rules = @ \cup {r}]
+                       /\ todo' = todo - 1
+                       /\ pc' = "rule"
 BuildFlags == /\ pc = "flags"
-              /\ \E k \in 0..MaxFlags :
-                   \E F \in {T \in SUBSET FlagNames : Cardinality(T) = k /\ FlagSetOK(T)} : scn' = [scn EXCEPT !.flags = F]
-              /\ pc' = "opts"
-              /\ UNCHANGED todo
-BuildOpts == /\ pc = "opts"
-             /\ \E g \in Globs, t \in TypeSel, d \in Depths, r \in RootModes :
-                  scn' = [scn EXCEPT !.glob = g, !.types = t, !.depth = d, !.root = r]
-             /\ pc' = "done"
-             /\ UNCHANGED todo
+              /\ UNCHANGED mask
+              /\ IF todo = 0
+                   THEN pc' = "glob" /\ UNCHANGED <<scn, todo>>
+                   ELSE /\ \E f \in FlagNames \ scn.flags :
+                             /\ FlagSetOK(scn.flags \cup {f})
+                             /\ scn' = [scn EXCEPT !.flags = @ \cup {f}]
+                        /\ todo' = todo - 1
+                        /\ pc' = "flags"
+Opt(name, all, dflt) == IF name \in mask THEN all \ {dflt} ELSE {dflt}
+BuildGlob  == pc = "glob"  /\ pc' = "types" /\ UNCHANGED <<todo, mask>>
+              /\ \E g \in Opt("glob", Globs, NoGlob) : scn' = [scn EXCEPT !.glob = g]
+BuildTypes == pc = "types" /\ pc' = "depth" /\ UNCHANGED <<todo, mask>>
+              /\ \E t \in Opt("types", TypeSel, "none") : scn' = [scn EXCEPT !.types = t]
+BuildDepth == pc = "depth" /\ pc' = "root"  /\ UNCHANGED <<todo, mask>>
+              /\ \E d \in Opt("depth", Depths, -1) : scn' = [scn EXCEPT !.depth = d]
+BuildRoot  == pc = "root"  /\ pc' = "fin"   /\ UNCHANGED <<todo, mask>>
+              /\ \E r \in Opt("root", RootModes, "dot") : scn' = [scn EXCEPT !.root = r]
+\* (a last step with one successor: in simulation TLC evaluates the invariants - hence Emitted - on
+\* every successor it generates, not only on the one it follows)
+BuildFin   == pc = "fin"   /\ pc' = "done"  /\ UNCHANGED <<scn, todo, mask>>
 
-Next == Pick \/ BuildGit \/ BuildSlots \/ BuildRule \/ BuildFlags \/ BuildOpts
+Next == Pick \/ BuildGit \/ BuildRule \/ BuildFlags \/ BuildGlob \/ BuildTypes \/ BuildDepth \/ BuildRoot \/ BuildFin
 Spec == Init /\ [][Next]_vars
 
 Done == pc = "done"
